@@ -93,8 +93,15 @@ def run_replay(ctx, cfgbin, work, path):
             rej = t.prints[-1]["rejected"] if t.prints else []
             ctx.violation("logged records still inexplicable", {"kind": "config-trace", "rejected": rej})
         return ctx.finish()
-    cases = case.get("cases") or [case]
-    data = "".join(json.dumps({"ast": c["ast"], "exp": c["exp"]}) + "\n" for c in cases if "ast" in c)
+    cases = [c for c in (case.get("cases") or [case]) if "ast" in c]
+    # the expectation is recomputed by TLC from the specification as it is now, not taken from the file
+    tr = os.path.join(work, "replay.ndjson")
+    vlib.write_lines(tr, [{"ast": c["ast"]} for c in cases])
+    g = run_tlc("MC_Config.tla", "Gen_Config_replay.cfg", D, workers=1, env={"TRACE": tr}, timeout=TO, work_id="c15rg", heap="2g")
+    if g.violation or not g.prints:
+        raise vlib.ToolError("replay: TLC could not evaluate Meaning: %s" % g.out[-1500:])
+    ctx.add_tlc("Meaning of the %d replayed configuration(s)" % len(cases), g)
+    data = "".join(json.dumps(x) + "\n" for x in g.prints)
     s = summary_of(run_bin(cfgbin, ["replay", work, "12"], stdin_data=data), "replay")
     ctx.cov["evaluations"] += s["loads"]
     ctx.cov["traces_validated_against_impl"] += s["loads"]
@@ -185,7 +192,7 @@ def run_all(ctx, cfgbin, work, thorough):
         ctx.add_part("selftest_vectors", corrupted=len(corrupted), flagged=len(bad_cases))
 
     # 4. random full-width configurations loaded by the real code, validated by TLC
-    n = 4000 if thorough else 400
+    n = 12000 if thorough else 1000
     p = run_bin(cfgbin, ["random", work, str(n)])
     if p.returncode != 0:
         raise vlib.ToolError("config random failed: " + p.stderr[-1000:])
@@ -193,7 +200,7 @@ def run_all(ctx, cfgbin, work, thorough):
     if len(recs) != n:
         raise vlib.ToolError("config random produced %d of %d records" % (len(recs), n))
     tr = os.path.join(work, "random.ndjson")
-    chunk = 1000
+    chunk = 2000
     ntr = 0
     for i in range(0, n, chunk):
         part = recs[i:i + chunk]
@@ -240,7 +247,7 @@ def run_all(ctx, cfgbin, work, thorough):
                        "arity 1..3; include splittings; every single-fault mutant of the base configurations), each loaded under 5/12 seeded "
                        "layouts, plus random full-width configurations; non-trivial = distinct configurations that are rejected or whose "
                        "described Config differs from the all-defaults one")
-    ctx.cov["exhaustive"] = True
+    ctx.cov["exhaustive"] = False   # the family is a covering sample of the bounded space (pairwise key presence), completely enumerated
     ctx.assumptions += [
         "Meaning(ast) in Config.tla is the property's definition; defaults are those of Config::from_tree (DESIGN 5a)",
         "lexical choices of the generators (stated in Config.tla): `server {` verbatim, blanks between key and value, no `\"`/`#` inside strings, "
